@@ -7,6 +7,7 @@ package app
 // assembly without ZooKeeper, transcript -> Gallina printer.
 
 import (
+	"math"
 	"runtime/debug"
 	"context"
 	"encoding/json"
@@ -789,7 +790,7 @@ func cfgGal(c *config.Config) string {
 		"; c_wait_repl_start_timeout := " + d(c.WaitReplicationStartTimeout) + "; c_slave_catch_up_timeout := " + d(c.SlaveCatchUpTimeout) +
 		"; c_manager_switchover := " + vk.B(c.ManagerSwitchover) + "; c_manager_election_delay := " + d(c.ManagerElectionDelayAfterQuorumLoss) +
 		"; c_repl_mon := " + vk.B(c.ReplMon) + "; c_master_first_adjust := " + vk.B(c.MasterFirstAdjustSSOrder) +
-		"; c_offline_enable_lag := " + vk.Z(int64(c.OfflineModeEnableLag/time.Second)) + "; c_offline_disable_lag := " + vk.Z(int64(c.OfflineModeDisableLag/time.Second)) +
+		"; c_offline_enable_lag := " + vk.Z(int64(c.OfflineModeEnableLag/time.Second)*vk.LagScale) + "; c_offline_disable_lag := " + vk.Z(int64(c.OfflineModeDisableLag/time.Second)*vk.LagScale) +
 		"; c_offline_enable_interval := " + d(c.OfflineModeEnableInterval) + "; c_offline_max_pct := " + vk.Z(int64(c.OfflineModeMaxOfflinePct)) +
 		"; c_repair_aggressive := " + vk.B(c.ReplicationRepairAggressiveMode) + "; c_repair_max_attempts := " + vk.Z(int64(c.ReplicationRepairMaxAttempts)) +
 		"; c_repair_cooldown := " + d(c.ReplicationRepairCooldown) + "; c_stream_from_reasonable_lag := " + vk.Z(int64(c.StreamFromReasonableLag/time.Second)) +
@@ -882,7 +883,7 @@ func nsGal(ns *nodestate.NodeState) string {
 		}
 		lag := "None"
 		if s.ReplicationLag != nil {
-			lag = vk.Some(vk.Z(int64(*s.ReplicationLag)))
+			lag = vk.Some(vk.Z(int64(math.Round(*s.ReplicationLag * float64(vk.LagScale)))))
 		}
 		sl = vk.Some("{| rs_source := " + hostGal(s.MasterHost) + "; rs_io := " + vk.B(io) + "; rs_sql := " + vk.B(sql) +
 			"; rs_io_errno := " + vk.Z(ioe) + "; rs_sql_errno := " + vk.Z(sqle) + "; rs_lag := " + lag +
